@@ -412,6 +412,11 @@ impl ZchState {
                     // chain has an activation output that is not empty. For empty outputs, do not
                     // do any backspacing.
                     self.zchd.zchd_characters_to_delete_on_next_activation += 1;
+                    if !is_prioritized_activation {
+                        // A top-level chord with an empty output starts a new chain: the output
+                        // count of an unrelated earlier activation must not be erased with it.
+                        self.zchd.zchd_prior_activation_output_count = 0;
+                    }
                     self.zchd.zchd_prior_activation_output_count +=
                         self.zchd.zchd_input_keys.zchik_keys().len() as i16;
                     kb.press_key(osc)?;
